@@ -75,6 +75,34 @@ def genealogies(draw, min_n=2, max_n=12, hetero=None):
     return {"n": n, "samp": samp, "coal": coal, "joins": joins}
 
 
+@st.composite
+def genealogies_scaled(draw, min_n=2, max_n=12, hetero=None):
+    """a genealogy in a drawn time unit: all sampling and coalescent times multiplied by
+    2**k, k = 0 half of the time, else uniform in -30..20 (1e-9 .. 1e6, log-uniform over the
+    decades). A power of two is exact, so order, ties and distinctness are those of the unit
+    genealogy. The factor is recorded as g["tscale"]."""
+    g = draw(genealogies(min_n, max_n, hetero))
+    k = draw(st.one_of(st.just(0), st.integers(-30, 20)))
+    s = 2.0 ** k
+    g["samp"] = [t * s for t in g["samp"]]
+    g["coal"] = [t * s for t in g["coal"]]
+    g["tscale"] = s
+    return g
+
+
+def tscale_band(g):
+    s = g.get("tscale", 1.0)
+    if s == 1.0:
+        return "time-unit=1"
+    if s < 1e-6:
+        return "time-unit<1e-6"
+    if s < 1.0:
+        return "time-unit 1e-6..1"
+    if s <= 1e3:
+        return "time-unit 1..1e3"
+    return "time-unit>1e3"
+
+
 def taxon_names(n):
     return ["t%d" % i for i in range(n)]
 
@@ -141,14 +169,14 @@ def times_events(g):
 
 
 @st.composite
-def grids(draw, coal_rows, m, regular=None, samp=()):
+def grids(draw, coal_rows, m, regular=None, samp=(), tscale=1.0):
     """m-1 increasing grid points (theta has m entries), none equal to a coalescent time of any
     row; points before the first coalescence and beyond the root are drawn on purpose.
     positive sampling times (`samp`) are used as grid points now and then (harmless coincidence).
     returns {"grid": [...]} or {"cutoff": c} for the regular grid linspace(0, c, m)[1:]"""
     allc = sorted(set(c for row in coal_rows for c in row))
     root = allc[-1]
-    scale = max(root, 1e-3)
+    scale = max(root, 1e-3 * tscale)  # tscale: time unit of the genealogy (genealogies_scaled)
     if regular is None:
         regular = draw(st.booleans())
 
@@ -174,14 +202,14 @@ def grids(draw, coal_rows, m, regular=None, samp=()):
         if stimes and where == 0 and f < 0.5:
             p = stimes[draw(st.integers(0, len(stimes) - 1))]
         elif where >= len(marks) - 1:  # beyond the root (twice as likely as any one gap)
-            p = root * (1.0 + 2.0 * f) + (1e-3 if root == 0 else 0.0)
+            p = root * (1.0 + 2.0 * f) + (1e-3 * tscale if root == 0 else 0.0)
         else:
             p = marks[where] + f * (marks[where + 1] - marks[where])
         if p > 0 and not clash([p]):
             pts.add(p)
     k = 1
     while len(pts) < m - 1:  # fill up (only when many draws collided): points beyond everything
-        p = (max(pts) if pts else root) * (1.0 + 0.37 * k) + 0.011 * k
+        p = (max(pts) if pts else root) * (1.0 + 0.37 * k) + 0.011 * k * tscale
         k += 1
         if not clash([p]):
             pts.add(p)
